@@ -261,37 +261,8 @@ fn build_case<const W: usize>(kind: u8, ntlv: usize, l0: usize, l1: usize) {
         }
         assert!(it.next().is_none(), "no further TLVs");
     }
-    kani::cover!(true, "case reached the end");
-}
-
-/// All shapes of one body kind in the given region.
-fn build_kind(kind: u8, region: Region) {
-    const LENS: [usize; 5] = [0, 2, 4, 1, 3];
-    let mut ntlv = 0;
-    while ntlv <= 2 {
-        let mut a = 0;
-        while a < 5 {
-            let mut b = 0;
-            while b < 5 {
-                let (l0, l1) = (LENS[a], LENS[b]);
-                // shapes with fewer TLVs ignore the unused lengths: visit them once
-                let dup = (ntlv == 0 && (a > 0 || b > 0)) || (ntlv == 1 && b > 0);
-                let odd = (ntlv >= 1 && l0 % 2 == 1) || (ntlv >= 2 && l1 % 2 == 1);
-                let trailing_empty = (ntlv == 1 && l0 == 0) || (ntlv == 2 && l1 == 0);
-                let wanted = match region {
-                    Region::Main => !odd && !trailing_empty,
-                    Region::TrailingEmpty => !odd && trailing_empty,
-                    Region::OddLength => odd,
-                };
-                if !dup && wanted {
-                    build_case::<80>(kind, ntlv, l0, l1);
-                }
-                b += 1;
-            }
-            a += 1;
-        }
-        ntlv += 1;
-    }
+    kani::cover!(back.is_ok() && ntlv == 2 && l0 == 0 && l1 == 4, "round trip with two TLVs, the first empty-valued");
+    kani::cover!(back.is_ok() && ntlv <= 1, "round trip with at most one TLV");
 }
 
 #[derive(Clone, Copy, PartialEq)]
@@ -304,12 +275,28 @@ enum Region {
     OddLength,
 }
 
+/// One body kind, symbolic TLV shape inside `region`.
+fn build_sym<const W: usize>(kind: u8, region: Region) {
+    let ntlv: usize = kani::any();
+    let l0: usize = kani::any();
+    let l1: usize = kani::any();
+    kani::assume(ntlv <= 2 && l0 <= 4 && l1 <= 4);
+    let odd = (ntlv >= 1 && l0 % 2 == 1) || (ntlv >= 2 && l1 % 2 == 1);
+    let trailing_empty = (ntlv == 1 && l0 == 0) || (ntlv == 2 && l1 == 0);
+    match region {
+        Region::Main => kani::assume(!odd && !trailing_empty),
+        Region::TrailingEmpty => kani::assume(!odd && trailing_empty),
+        Region::OddLength => kani::assume(odd),
+    }
+    build_case::<W>(kind, ntlv, l0, l1);
+}
+
 macro_rules! build_harness {
     ($name:ident, $kind:expr, $region:expr) => {
         #[kani::proof]
         #[kani::unwind(18)]
         fn $name() {
-            build_kind($kind, $region);
+            build_sym::<80>($kind, $region);
         }
     };
 }
@@ -330,35 +317,3 @@ build_harness!(c41_build_kf_trailing_empty_tlv, 0, Region::TrailingEmpty);
 // assertion in `wire_size`).
 build_harness!(c41_build_kf_odd_tlv_length, 0, Region::OddLength);
 
-/// One body kind, symbolic TLV shape inside `region`.
-fn build_sym<const W: usize>(kind: u8, region: Region) {
-    let ntlv: usize = kani::any();
-    let l0: usize = kani::any();
-    let l1: usize = kani::any();
-    kani::assume(ntlv <= 2 && l0 <= 4 && l1 <= 4);
-    let odd = (ntlv >= 1 && l0 % 2 == 1) || (ntlv >= 2 && l1 % 2 == 1);
-    let trailing_empty = (ntlv == 1 && l0 == 0) || (ntlv == 2 && l1 == 0);
-    match region {
-        Region::Main => kani::assume(!odd && !trailing_empty),
-        Region::TrailingEmpty => kani::assume(!odd && trailing_empty),
-        Region::OddLength => kani::assume(odd),
-    }
-    build_case::<W>(kind, ntlv, l0, l1);
-}
-
-#[kani::proof]
-#[kani::unwind(18)]
-fn probe_build_sym() {
-    build_sym::<80>(0, Region::Main);
-}
-
-#[kani::proof]
-#[kani::unwind(18)]
-fn probe_build_one() {
-    build_case::<64>(0, 1, 2, 0);
-}
-#[kani::proof]
-#[kani::unwind(18)]
-fn probe_build_zero() {
-    build_case::<64>(0, 0, 0, 0);
-}
